@@ -8,7 +8,7 @@ CLAIMED = {
    technique="proptest program generation + metamorphic layout relation (tree, verdict and behaviour equality)",
    design="6/C09"),
  "C12": dict(
-   text="Three generated-input searches: (a) checker-accepted programs of the wide generator, two thirds with wrongly typed sub-expressions planted in parentheses / argument lists / subscripts / CASE and PRINT lists and without statements converting external data, must never raise Type mismatch (13) nor a wrong-kind failure at run time; (b) consistent renaming of every user identifier keeps verdict class, output, error code and row; (c) one ill-typing edit (string operand at any expression depth, extra argument, by-reference type, duplicate CONST, NEXT with another counter) of an accepted program must be rejected with the matching error family inside the edited statement.",
+   text="Four searches: (d) an exhaustive fault x position x context matrix (74 ill-typed expressions x every expression position of their type, 28 ill-typed statements, 16 statement contexts) where a fault rejected at the reference position must be rejected with the same error family inside the faulty statement wherever it is placed; and three generated-input searches: (a) checker-accepted programs of the wide generator, two thirds with wrongly typed sub-expressions planted in parentheses / argument lists / subscripts / CASE and PRINT lists and without statements converting external data, must never raise Type mismatch (13) nor a wrong-kind failure at run time; (b) consistent renaming of every user identifier keeps verdict class, output, error code and row; (c) one ill-typing edit (string operand at any expression depth, extra argument, by-reference type, duplicate CONST, NEXT with another counter) of an accepted program must be rejected with the matching error family inside the edited statement.",
    note="Trusted: the IR printer's site map; refsem's static typing to pick numeric operands; the family table in the evidence assumptions.",
    technique="proptest program generation + validity oracle (soundness), metamorphic renaming relation, mutation of accepted programs with a rejection oracle",
    design="6/C12"),
@@ -18,7 +18,7 @@ CLAIMED = {
    technique="generation-based and mutation-based fuzzing (proptest-driven) with a validity-predicate oracle; exhaustive prefix truncation",
    design="6/C07"),
  "C08": dict(
-   text="Wide type-directed program fuzzing over the whole statement/built-in repertoire (with planted ill-typed sub-expressions) plus all repository programs on random console input; only checker-accepted programs are judged; oracle = translation and execution end in normal termination or a run-time error with code and position, never a panic, process death or unreportable error.",
+   text="Wide type-directed program fuzzing over the whole statement/built-in repertoire (with planted ill-typed sub-expressions), the exhaustive fault x position x context matrix (102 ill-typed templates placed at every expression position and in 16 statement contexts), plus all repository programs on random console input; only checker-accepted programs are judged; oracle = translation and execution end in normal termination or a run-time error with code and position, never a panic, process death or unreportable error.",
    note="Trusted: the in-memory run hook; machine-touching built-ins (INKEY$, DEF SEG = 0, real SYSTEM) are excluded; budget exhaustion is inconclusive.",
    technique="proptest tape-decoded wide program generation + crash/validity oracle",
    design="6/C08"),
@@ -33,7 +33,7 @@ CLAIMED = {
    technique="proptest program generation + fault injection + differential position oracle (site map)",
    design="6/C11"),
  "C13": dict(
-   text="Exhaustive enumeration of all 26x5 single-letter DEFtype configurations and all 325x5 letter ranges crossed with declaration templates (35 global x 30 subprogram kinds, function-name templates, 422 must-reject templates), plus random combinations; an independent resolver written from the statement and the README predicts accept/reject and which storage every spelling denotes, observed through distinct values printed through every spelling.",
+   text="Exhaustive enumeration of all 26x5 single-letter DEFtype configurations and all 325x5 letter ranges crossed with declaration templates (35 global x 30 subprogram kinds, function-name templates, 422 must-reject templates, array parameters in compact and extended style, constants shadowed inside subprograms), plus random combinations; an independent resolver written from the statement and the README predicts accept/reject and which storage every spelling denotes, observed through distinct values printed through every spelling.",
    note="Trusted: the independent resolver; configurations the stated rules do not decide are discarded and counted.",
    technique="exhaustive configuration enumeration + proptest random configurations against a reference resolver",
    design="6/C13"),
@@ -48,7 +48,7 @@ CLAIMED = {
    technique="proptest stateful history generation against a reference model of the file store and handle table",
    design="6/C18"),
  "C06": dict(
-   text="Exhaustive route x type-pair x boundary-value matrix (assignment, by-value parameter, FOR initial value, function result, array element, record field, READ, INPUT; + - * over boundary pairs; unary minus on the minima) with an exact expectation per observation (exactly rounded value, ties either way, or Overflow at that statement), and a value-level typed-variable invariant evaluated at every statement boundary of every run (matrix and random programs) through the tick hook.",
+   text="Exhaustive route x type-pair x boundary-value matrix (assignment, by-value parameter, FOR initial value, function result, array element, record field, READ, INPUT; + - * over boundary pairs; unary minus on the minima) with an exact expectation per observation (exactly rounded value, ties either way, or Overflow at that statement), float-overflow rows (results beyond the SINGLE/DOUBLE range must raise Overflow), and a tag-level typed-variable invariant evaluated at every statement boundary of every run (matrix and random programs) through the tick hook.",
    note="Trusted: exact quarter-unit arithmetic of the expectation; the hook's variable dump; f32/f64 parsing of printed values. Known unguarded INTEGER/LONG arithmetic is attributed to its finding.",
    technique="exhaustive boundary-value enumeration + invariant checking over generated programs (proptest)",
    design="6/C06"),
@@ -58,8 +58,8 @@ CLAIMED = {
    technique="proptest tape-decoded op-sequence generation + model-based differential oracle with full state dump",
    design="6/C04"),
  "C05": dict(
-   text="Differential testing of trace programs (each statement prints a token, so stdout is the executed path) against a reference control machine: GOTO/GOSUB/RETURN layouts incl. jumps out of nested loops, handler enabling/disabling orders, five failing-statement kinds at every block position, RESUME / RESUME NEXT / RESUME label, stray RETURN/RESUME.",
-   note="Trusted: reference control machine (tree-walking with labels per block, GOSUB as activation, handler dispatch). Failing statements under a handler are simple module-level statements only.",
+   text="Differential testing of trace programs (each statement prints a token, so stdout is the executed path) against a reference control machine: GOTO/GOSUB/RETURN layouts incl. jumps out of nested loops, handler enabling/disabling orders, five failing-statement kinds at every block position (also as last statement of a block followed by ELSE / CASE, and inside subprograms), RESUME / RESUME NEXT / RESUME label, RETURN label, stray RETURN/RESUME.",
+   note="Trusted: reference control machine (tree-walking with labels per block, GOSUB as activation, handler dispatch). Failing statements under a handler sit at module level (any block position, incl. last statement before ELSE/CASE) or inside SUBs with a module-level handler; RESUME label for an error raised inside a procedure is left undetermined.",
    technique="proptest tape-decoded trace-program generation + differential oracle (reference control machine)",
    design="6/C05"),
  "C16": dict(
@@ -88,7 +88,7 @@ CLAIMED = {
    technique="proptest tape-decoded program generation + differential oracle (reference semantics) + final-state dump",
    design="6/C03"),
  "C15": dict(
-   text="Every generated and every repository-embedded program is compiled and its instruction list checked by a static well-formedness checker and an abstract interpreter over the depth vector of the six VM stacks on all control-flow paths; then run with a dynamic re-check of the depth vector at statement starts. Test-time analysis of generated outputs, not a proof over all programs.",
+   text="Every generated program (core, calls and control generators under plain and random layouts, dense position grids of one construct at hundreds of row/column positions) and every repository-embedded program is compiled and its instruction list checked by a static well-formedness checker and an abstract interpreter over the depth vector of the six VM stacks on all control-flow paths; then run with a dynamic re-check of the depth vector at statement starts. Test-time analysis of generated outputs, not a proof over all programs.",
    note="Trusted: the per-instruction stack effects transcribed from Interpreter::interpret_one; callee balance assumed at call sites and checked per procedure body.",
    technique="generated-program search + abstract interpretation of each produced instruction list + dynamic depth invariant",
    design="6/C15"),
